@@ -2,7 +2,7 @@
    pairs the implementation run computed; an input missing from the table gives the
    sentinel digest [256] (not a byte string), which propagates through every later hash
    and makes the case FAIL: a missing entry is a correspondence error, never a pass. *)
-From Coq Require Import Uint63.
+From Coq Require Import Uint63 FMapPositive.
 From LP Require Import Prelude Pay Merkle.
 Local Open Scope N_scope.
 
@@ -39,7 +39,20 @@ Fixpoint lookup (t : table) (x : list N) : list N :=
   | [] => SENTINEL
   | (i, d) :: r => if bytes_eqb i x then d else lookup r x
   end.
-Definition tblH (t : table) : list N -> list N := lookup t.
+(* the table is indexed by the last three bytes of the input (a trie of small association
+   lists), so that a lookup does not scan thousands of entries *)
+Fixpoint last3 (x : list N) (a b c : N) : N :=
+  match x with [] => a + 256 * b + 65536 * c | y :: r => last3 r y a b end.
+Definition key_of (x : list N) : positive := N.succ_pos (last3 x 0 0 0).
+Definition index := PositiveMap.t table.
+Definition build (t : table) : index :=
+  fold_right (fun e m =>
+                let k := key_of (fst e) in
+                PositiveMap.add k (e :: match PositiveMap.find k m with Some b => b | None => [] end) m)
+             (PositiveMap.empty table) t.
+Definition tblH (t : table) : list N -> list N :=
+  let m := build t in
+  fun x => match PositiveMap.find (key_of x) m with Some b => lookup b x | None => SENTINEL end.
 
 Definition hit (d : list N) : bool := negb (bytes_eqb d SENTINEL).
 
